@@ -106,9 +106,18 @@ def run_universes(ctx, base="StateMachine", mode="full", owned=None):
     n = len(signature_universes()) if mode == "sig" else len(sm.universes(ctx.tier, base))
     jobs = [(ctx.repo, ctx.tier, base, i, mode, set(owned) if owned else None) for i in range(n)]
     procs = min(len(jobs), max(1, (os.cpu_count() or 2)))
+    if ctx.tier == "thorough":
+        procs = min(procs, 6)  # the large universes need several GB each
     if procs > 1 and not os.environ.get("VERIF_SERIAL"):
-        with mp.get_context("fork").Pool(procs) as pool:
-            res = pool.map(_one, jobs, chunksize=1)
+        # (a worker that dies - e.g. out of memory - breaks the pool with an error instead of hanging the check)
+        import concurrent.futures as cf
+        from ..values import Unsupported as _U
+
+        try:
+            with cf.ProcessPoolExecutor(max_workers=procs, mp_context=mp.get_context("fork")) as pool:
+                res = list(pool.map(_one, jobs))
+        except cf.process.BrokenProcessPool as e:
+            raise _U(f"a worker process of the closure died (out of memory?): {e}")
     else:
         res = [_one(j) for j in jobs]
     for r in res:
